@@ -43,7 +43,7 @@ def change_summary(c):
 
 
 def run_inproc(files, flags, *, format_command=None, block_black=False, pyproject=None,
-               workdir=None, keep=False, trace_calls=False, run_tests=True, storage_files=None, active=True, black_raises=False):
+               workdir=None, keep=False, trace_calls=False, run_tests=True, storage_files=None, active=True, black_raises=False, edits=False):
     """files: {name: str|bytes}.  flags: iterable of category names.
     Returns a dict (see keys below).  Never raises for failures of the code under test."""
     from inline_snapshot import _config, _problems
@@ -180,6 +180,14 @@ def run_inproc(files, flags, *, format_command=None, block_black=False, pyprojec
                         _rc.format_code, _rc.enforce_formatting = saved
                     with open(f.filename, encoding="utf-8", newline="") as fh:   # no newline translation (as SourceFile.new_code)
                         res["read_text"][nm] = fh.read().removeprefix("\ufeff")     # the byte order mark is not part of the text that is edited
+                if edits and len(files) == 1:
+                    # the tree of the snapshot arguments, the surviving changes and the recorded replacement ranges (correspondence with Model/Edits.v)
+                    from . import editscorr as _ec
+                    try:
+                        from inline_snapshot._change import without_obsolete_changes as _woc2
+                        res["edits"] = _ec.extract(_woc2([c for c in changes if c.flag in flags]), next(iter(res["replacements"].values()), []))
+                    except _ec.Skip as e:
+                        res["edits"] = {"skip": str(e)}
                 rec.fix_all()
             except BaseException as e:  # noqa
                 res["session_exc"] = _summ_exc(e)
